@@ -694,3 +694,76 @@ package query
 //@   loop 4 invariant 0 <= $i && $i <= len(fieldIndices) && keyIndicesMap != nil && base(updateIndices) != base(fieldIndices)
 //@   loop 4 invariant forall(q, 0, len(updateIndices), inPrefix(fieldIndices, $i, updateIndices[q]) && !has(keyIndicesMap, uint(updateIndices[q])))
 //@   modifies *
+
+// ---------------------------------------------------------------------------------------------
+// C15 / C16: blocks form a stack, lookups act on the innermost block that declares the name.
+// The per-block maps sit on sync.Map (outside the subset); they are summarised by a ghost content model:
+// declaredIn(map, name) says whether the name is declared in that block, a ghost variable records which block's
+// map served the last operation.
+//@ spec func varDeclared(m VariableMap, name string) bool reads ghost(varEpoch)
+//@ spec func varValue(m VariableMap, name string) value.Primary reads ghost(varEpoch)
+//@ ghost var varEpoch int
+//@ ghost var varServedBy VariableMap
+//@ func (VariableMap).Get
+//@   trusted assumed ghost model of the sync.Map behind a block's variables
+//@   ensures result1 == varDeclared(m, variable.Name) && (result1 ==> result0 == varValue(m, variable.Name)) && (!result1 ==> result0 == nil)
+//@   modifies nothing
+//@ func (VariableMap).Set
+//@   trusted assumed ghost model: assigns iff declared in this block; other blocks are not touched
+//@   ensures result == old(varDeclared(m, variable.Name))
+//@   ensures result ==> varServedBy == m && varValue(m, variable.Name) == val && varDeclared(m, variable.Name)
+//@   ensures !result ==> varEpoch == old(varEpoch) && varServedBy == old(varServedBy)
+//@   modifies varEpoch, varServedBy
+
+//@ func (*ReferenceScope).GetVariable
+//@   property C15
+//@   safety
+//@   requires rs != nil
+//@   ensures [innermost-declaration-wins] forall(k, 0, len(rs.Blocks), varDeclared(rs.Blocks[k].Variables, expr.Name) && forall(q, 0, k, !varDeclared(rs.Blocks[q].Variables, expr.Name)) ==>
+//@       err == nil && val == varValue(rs.Blocks[k].Variables, expr.Name))
+//@   ensures [undeclared-is-error] forall(q, 0, len(rs.Blocks), !varDeclared(rs.Blocks[q].Variables, expr.Name)) ==> err != nil && val == nil
+//@   loop 1 invariant 0 <= $i && $i <= len(rs.Blocks) && forall(q, 0, $i, !varDeclared(rs.Blocks[q].Variables, expr.Name))
+//@   loop 1 modifies nothing
+//@   modifies nothing
+
+//@ func (*ReferenceScope).SubstituteVariableDirectly
+//@   property C15
+//@   safety
+//@   requires rs != nil
+//@   ensures [assigns-innermost-declaration-only] forall(k, 0, len(rs.Blocks), old(varDeclared(rs.Blocks[k].Variables, variable.Name)) && forall(q, 0, k, !old(varDeclared(rs.Blocks[q].Variables, variable.Name))) ==>
+//@       result1 == nil && result0 == val && varServedBy == rs.Blocks[k].Variables)
+//@   ensures [undeclared-is-error-and-changes-nothing] forall(q, 0, len(rs.Blocks), !old(varDeclared(rs.Blocks[q].Variables, variable.Name))) ==> result1 != nil && varEpoch == old(varEpoch)
+//@   loop 1 invariant 0 <= $i && $i <= len(rs.Blocks) && varEpoch == old(varEpoch) && varServedBy == old(varServedBy) && forall(q, 0, $i, !varDeclared(rs.Blocks[q].Variables, variable.Name))
+//@   loop 1 modifies nothing
+//@   modifies varEpoch, varServedBy
+
+//@ spec func curDeclared(m CursorMap, name string) bool
+//@ ghost var cursorServedBy CursorMap
+//@ invariant query_cursor_error_singletons: errUndeclaredCursor != nil && errPseudoCursor != nil && errUndeclaredCursor != errPseudoCursor && errCursorClosed != errUndeclaredCursor
+//@ func (CursorMap).Fetch
+//@   trusted assumed ghost model of the sync.Map behind a block's cursors; Cursor.Fetch itself is verified (C16)
+//@   ensures !curDeclared(m, name.Literal) ==> result1 == errUndeclaredCursor && result0 == nil && cursorServedBy == old(cursorServedBy)
+//@   ensures curDeclared(m, name.Literal) ==> result1 != errUndeclaredCursor && cursorServedBy == m
+//@   modifies * except F:query.ReferenceScope. E:query.BlockScope#
+
+//@ func (*ReferenceScope).FetchCursor
+//@   property C15 C16
+//@   safety
+//@   requires rs != nil
+//@   ensures [innermost-declaration-serves-the-fetch] forall(k, 0, len(rs.Blocks), curDeclared(rs.Blocks[k].Cursors, name.Literal) && forall(q, 0, k, !curDeclared(rs.Blocks[q].Cursors, name.Literal)) ==>
+//@       cursorServedBy == rs.Blocks[k].Cursors)
+//@   ensures [undeclared-is-error] forall(q, 0, len(rs.Blocks), !curDeclared(rs.Blocks[q].Cursors, name.Literal)) ==> result1 != nil && result0 == nil && cursorServedBy == old(cursorServedBy)
+//@   loop 1 invariant 0 <= $i && $i <= len(rs.Blocks) && cursorServedBy == old(cursorServedBy) && forall(q, 0, $i, !curDeclared(rs.Blocks[q].Cursors, name.Literal))
+//@   modifies *
+
+// a child block: one new (pooled, cleared) block in front of the parent's blocks, which are shared, not copied
+//@ func (*ReferenceScope).CreateChild
+//@   property C15
+//@   safety
+//@   requires rs != nil
+//@   ensures [one-more-block] result != nil && fresh(result) && len(result.Blocks) == len(rs.Blocks) + 1 && fresh(result.Blocks)
+//@   ensures [parent-blocks-follow-in-order] forall(k, 0, len(rs.Blocks), result.Blocks[k + 1] == rs.Blocks[k])
+//@   ensures [parent-unchanged] rs.Blocks == old(rs.Blocks) && forall(k, 0, len(rs.Blocks), rs.Blocks[k] == old(rs.Blocks[k]))
+//@   ensures [same-transaction] result.Tx == rs.Tx && result.nodes == nil
+//@   loop 1 invariant 0 <= $i && $i <= len(rs.Blocks) && len(blocks) == len(rs.Blocks) + 1 && fresh(blocks) && forall(k, 0, $i, blocks[k + 1] == rs.Blocks[k])
+//@   loop 1 modifies blocks[*]
